@@ -57,7 +57,7 @@ impl St {
 /// define_trial_state ends in State::new_npt
 #[verifier::external_body] pub fn define_trial_state(&self) -> (r: Result<St, SkErr>) ensures r is Ok ==> !r->Ok_0.min { unimplemented!() }
 // stability_analysis calls the skeleton of minimize_tpd above: a caller sees its contract only
-//@skeleton feos-core/src/phase_equilibria/stability_analysis.rs State::stability_analysis
+//@skeleton feos-core/src/phase_equilibria/stability_analysis.rs State::stability_analysis name=stability_analysis_sk
 //@returns Result<Res, SkErr>
 //@params &self
 //@keep i_trial: usize
@@ -67,14 +67,21 @@ impl St {
 //@event new free
 //@event push args=0
 //@event define_trial_state
-//@event minimize_tpd args=0
+//@event minimize_tpd args=0 errflag=min_failed
+//@flag min_failed
 //@readonly iter,any,components
     ensures
         // only accepted candidates are returned
-        r is Ok ==> r->Ok_0.ok
+        r.0 is Ok ==> r.0->Ok_0.ok,
+        // a verdict (in particular the empty list: "stable") is given only if every tangent-plane minimisation that was
+        // started ended with a verdict of its own: a failed minimisation is an error of the analysis, never "stable"
+        r.0 is Ok ==> !r.1
 //@loop 0
-    invariant result.ok
+    invariant result.ok, !min_failed
 //@end
+
+/// contract of stability_analysis as discharged above (`stability_analysis_sk`), for its caller
+#[verifier::external_body] pub fn stability_analysis(&self) -> (r: Result<Res, SkErr>) ensures r is Ok ==> r->Ok_0.ok { unimplemented!() }
 
 //@skeleton feos-core/src/phase_equilibria/tp_flash.rs PhaseEquilibrium::vle_init_stability
 //@returns Result<(Pe, Option<Pe>), SkErr>
